@@ -199,4 +199,18 @@ KeyUnique == \A a \in entries : \A b \in entries :
 
 DumpEdge == PrintT("EDGE " \o ToJson(View) \o "\t" \o ToJson([act' EXCEPT !.before = {}]) \o "\t" \o ToJson(View'))
 DumpStep == PrintT("OUT " \o ToJson([name |-> "step", i |-> nops', a |-> [act' EXCEPT !.before = {}]]))
+(***************************************************************************)
+(* `act` (the step's observed outcome) is not part of the VIEW: as a state  *)
+(* predicate an invariant over act would be evaluated only for the first     *)
+(* representative TLC finds of each view class.  The action forms below are  *)
+(* evaluated for EVERY transition TLC generates; the configurations that use *)
+(* a VIEW check these.                                                       *)
+(***************************************************************************)
+P2A == [][P2']_vars
+P3A == [][P3']_vars
+P5A == [][P5']_vars
+P6A == [][P6']_vars
+P7A == [][P7']_vars
+OnlyShrinksA == [][OnlyShrinks']_vars
+
 =============================================================================
